@@ -19,7 +19,8 @@ package tests
 //            F            every single crash point from the last operation of the first call on (the first call is the
 //                         first Open, whose crash points do not depend on the log)
 //            T<m>:<r>     sampled single crash points: the point after the last operation, the first and last operation
-//                         index of every call (crash just before / just after a call returned) and every k with k%m==r
+//                         index of every call (crash just before / just after a call returned), the index of and after
+//                         every file sync, directory sync and rename (also inside a store directory), every k with k%m==r
 //            s:<k>        one single crash point;  d:<k1>:<k2> one pair;  n  no crash (run, close, reopen)
 //     log    e,e,...      entry j (1-based) of the replicated log; e = k:v[~L][@I]: Set(k, value) handed to Update with
 //                         raft index I (default: index of the previous entry + 1; indexes strictly increasing, gaps
@@ -674,6 +675,10 @@ func vcRunPhase(mem *vfs.MemFS, z *vcNorm, calls []vcCall, crashAt int, log []vc
 	}()
 	fs.mu.Lock()
 	tr := z.trace(fs.ops[:nops])
+	vcLastKinds = vcLastKinds[:0]
+	for _, o := range fs.ops[:nops] {
+		vcLastKinds = append(vcLastKinds, o[:strings.IndexByte(o, 0)])
+	}
 	fs.mu.Unlock()
 	if crashed {
 		fs.reset()
@@ -813,6 +818,9 @@ func vcCase(w io.Writer, wid string, log []vcLogEnt, logKey string, ph1, ph2 []v
 	return n1, n2
 }
 
+// kinds (create, write, fsync, syncdir, rename, ...) of the operations of the phase that ran last
+var vcLastKinds []string
+
 // first and last operation index of every call of phase 1 (and the index after it), from an output line
 func vcCallBounds(line string) []int {
 	var out []int
@@ -923,6 +931,16 @@ func TestVerifCrash(t *testing.T) {
 			for k := 0; k < n1; k++ {
 				if k%m == r%m {
 					pick[k] = true
+				}
+			}
+			// every durability boundary: just before and just after each file sync, directory sync and rename
+			// (also those inside a store directory)
+			for k, kind := range vcLastKinds {
+				if k < n1 && (kind == "fsync" || kind == "syncdir" || kind == "rename") {
+					pick[k] = true
+					if k+1 < n1 {
+						pick[k+1] = true
+					}
 				}
 			}
 			for _, b := range vcCallBounds(full.String()) {
